@@ -22,7 +22,7 @@ EXTENDS RefTables, Float, Json, TLC
 Rec == ndJsonDeserialize(IOEnv.TRACE)
 PrecOf(e) == IF "ty" \in DOMAIN e /\ e.ty = "f32" THEN 24 ELSE 53
 OkIv(e) == e.out.tag = "ok"
-IsQuant(e) == e.op = "quant.ranks"
+IsQuant(e) == e.op \in {"quant.ranks", "quant.data"}
 IsProp(e) == e.op = "prop.ci"
 
 \* bounds of an Ok event as [haslo, lo, hashi, hi] with dyadic values
@@ -88,11 +88,14 @@ C10Failed(e, tbl) ==
                   \E lj \in twos : ~OneTwo(e, b, tbl[<<"two", lj>>])}
          \cup {c \in {"C10.contains_estimate"} : HasEstimate(e) /\ (kd = "two" \/ HalfOrMore(e.li)) /\ ~Contains(e, b)}
 
-Producer(e) == IF IsProp(e) THEN "proportion_" \o e.fe ELSE IF IsQuant(e) THEN "quantile" ELSE e.fl
+Producer(e) == IF IsProp(e) THEN "proportion_" \o e.fe ELSE IF e.op = "quant.data" THEN "quantile_data_" \o e.entry
+               ELSE IF IsQuant(e) THEN "quantile" ELSE e.fl
 C10Clauses(e, tbl) ==
     IF ~OkIv(e) THEN (IF e.out.tag = "err" THEN {"C10.rejected." \o Producer(e)} ELSE {})
     ELSE LET kd == e.conf.kind IN
          {"C10.kind", "C10.producer." \o Producer(e), "C10.kind." \o kd}
+         \cup (IF ~IsProp(e) /\ ~IsQuant(e) /\ "var" \in DOMAIN e.stats /\ e.stats.var.tag = "fin" /\ e.stats.var.m = <<>>
+               THEN {"C10.constant_sample." \o kd} ELSE {})
          \cup (IF \E lj \in 1..(e.li - 1) : <<kd, lj>> \in DOMAIN tbl THEN {"C10.nesting"} ELSE {})
          \cup (IF kd # "two" /\ LevelA(e.li) > 5000 /\ \E lj \in TwoLevelFor(e.li) : <<"two", lj>> \in DOMAIN tbl
                THEN {"C10.one_sided_equals_two_sided", "C10.one_two." \o Producer(e)} ELSE {})
